@@ -43,13 +43,13 @@ def cases(tier, seed):
     if tier == "quick":
         out += [("filters", s, "16") for s in F.K3()]
         out += [("filters", s, "16") for s in F.sliced(F.K4(), seed % 16, 16)]
-        out += [("filters", s, "16") for s in F.P_SMALL]
+        out += [("filters", s, "16") for s in F.P_SMALL + F.P_HUGE]
         out += [("filters", s, "5") for s in F.P_LARGE]
     else:
         out += [("filters", s, "64") for s in F.K3()]
         out += [("filters", s, "16") for s in F.K4()]
         out += [("filters", s, "16") for s in F.M3()]
-        out += [("filters", s, "16") for s in F.P_SMALL]
+        out += [("filters", s, "16") for s in F.P_SMALL + F.P_HUGE]
         out += [("filters", s, "5") for s in F.P_LARGE]
     return out
 
@@ -203,4 +203,5 @@ def filtered_tree(res, spec, filters):
     def children(hist):
         return stash.get(hist, [])
 
-    _disp.explore(res, spec, filters, visit, check, children=children, sig=sig)
+    # one dispatcher for the whole tree (reset + replay), as a tree search uses it
+    _disp.explore(res, spec, filters, visit, check, children=children, sig=sig, rebuild="reset")
